@@ -10,3 +10,24 @@ package util
 //@   ensures result <==> exists i int :: 0 <= i && i < len(l) && l[i] == b
 //@   loop 1 invariant -1 <= rangeindex && rangeindex < len(l)
 //@   loop 1 invariant forall j int :: 0 <= j && j <= rangeindex ==> l[j] != b
+
+// ---- C13: failure strings ----------------------------------------------------------------------
+
+//@ func StringContainsAnySubStrs [C13]
+//@   pure
+//@   ensures #none (forall i int :: 0 <= i && i < len(l) ==> !contains(s, l[i])) ==> result == ""
+//@   ensures #first (exists i int :: 0 <= i && i < len(l) && contains(s, l[i])) ==> (exists k int :: 0 <= k && k < len(l) && result == l[k] && contains(s, l[k]) && (forall j int :: 0 <= j && j < k ==> !contains(s, l[j])))
+//@   loop 1 invariant -1 <= rangeindex && rangeindex < len(l)
+//@   loop 1 invariant forall j int :: 0 <= j && j <= rangeindex ==> !contains(s, l[j])
+
+//@ func StringContainsAny [C13]
+//@   pure
+//@   ensures result <==> exists i int :: 0 <= i && i < len(l) && contains(s, l[i])
+//@   loop 1 invariant -1 <= rangeindex && rangeindex < len(l)
+//@   loop 1 invariant forall j int :: 0 <= j && j <= rangeindex ==> !contains(s, l[j])
+
+//@ func ByteContainsAny [C02]
+//@   pure
+//@   ensures result <==> exists i int :: 0 <= i && i < len(l) && contains(b, l[i])
+//@   loop 1 invariant -1 <= rangeindex && rangeindex < len(l)
+//@   loop 1 invariant forall j int :: 0 <= j && j <= rangeindex ==> !contains(b, l[j])
